@@ -255,9 +255,12 @@ inline Case draw_case(const model::Desc & d, unsigned ncoords, bool allow_empty 
     }
     for (unsigned n = 0; n < ncoords && !shear; ++n) {
         Words x;
+        // double coordinates: every third coordinate lies on a 2^-10 grid, where interpolation weights need up to 30
+        // bits (exact in double, not in float); the model refuses whatever is not exact for the stack at hand
+        const ld gg = (top.in == Sc::f64 && *in_range<unsigned>(0, 2) == 0) ? g / 256 : g;
         for (size_t a = 0; a < top.N; ++a) {
             ld lo = std::max(reg[0][a].lo, lowest_of(top.in)), hi = reg[0][a].hi;
-            x.push_back(model::encode(draw_in(lo, std::max(lo, hi), g), top.in));
+            x.push_back(model::encode(draw_in(lo, std::max(lo, hi), gg), top.in));
         }
         c.coords.push_back(x);
     }
